@@ -189,8 +189,12 @@ class Executor:
             if c is None:
                 self.fresh += 1
                 c = z3.Bool('opaque!%d@%d' % (self.fresh, s.lineno))
+            st_else = st.clone()
+            if isinstance(s.test, ast.Name) and s.test.id in cfg.param_bools and any(isinstance(x, ast.Raise) for x in s.body):
+                # `if <parameter flag>: raise ...` passed with the flag off: a guarded failure site (the caller asked not to raise); recorded so that the protocol after it can be checked
+                st_else.trace.append('guard-off:%s@%d' % (s.test.id, s.lineno))
             self._block(s.body, st.clone(), pc + [c], nxt, loopk, finals)
-            self._block(s.orelse, st.clone(), pc + [z3.Not(c)], nxt, loopk, finals)
+            self._block(s.orelse, st_else, pc + [z3.Not(c)], nxt, loopk, finals)
             return
         if isinstance(s, (ast.For, ast.While)):
             if not relevant(s, cfg):
